@@ -34,7 +34,10 @@ def analyse(chk, qual, build=None, atoms=(R, DT), self_cls=None, flags="cold", l
         self_obj, oav = make_signal(I, st, P.cls(self_cls), name="self", flags=flags, is_param=False)
         pos = [oav]
     args = build(I, st, fi) if build else {}
+    kwav = args.pop(fi.kwarg, None) if (fi.kwarg and fi.kwarg in args) else None
     bound = I.bind(fi, pos, args, None, None)
+    if kwav is not None:
+        bound[fi.kwarg] = kwav
     ret, st2, flow = I.run(fi, bound, st, self_obj=self_obj)
     chk.absorb_interp(I)
     chk.files.add(fi.module.relpath)
